@@ -3,33 +3,35 @@
    for the joint state of all exogenous variables, shared across worlds); [local] says that the function of v reads its parents only.
    The graph's bidirected edges constrain the DISTRIBUTION of u, not the functions; every statement proved pointwise in u therefore
    holds for every distribution of u, i.e. in every structural causal model compatible with the graph.
-   Values are relative to a base assignment rho: the intervention / value (n, false) stands for "n takes the value rho n" and (n, true)
-   for "n takes the other value" (y0's starred values). *)
+   Values live in an arbitrary type D. y0 names two values of every variable: the intervention / value (n, false) stands for "n takes the
+   value rho (n, false)" and (n, true) for "n takes the value rho (n, true)" (y0's starred values); the theorems that need the two to differ
+   say so (forall n, rho (n, false) <> rho (n, true)). *)
 From Coq Require Import List Bool Arith.
 From Y0 Require Import Base.ListSet Graph.MixedGraph.
 Import ListNotations.
 
 Section SCM.
   Variable g : mg nat.
+  Context {D : Type}.
   Variable U : Type.
-  Variable f : nat -> (nat -> bool) -> U -> bool.
-  Variable rho : nat -> bool.
+  Variable f : nat -> (nat -> D) -> U -> D.
+  Variable rho : nat * bool -> D.
 
   Definition local : Prop :=
     forall v x x' u, (forall p, In p (parents g v) -> x p = x' p) -> f v x u = f v x' u.
 
-  Definition lit (i : nat * bool) : bool := xorb (rho (fst i)) (snd i).
+  Definition lit (i : nat * bool) : D := rho i.
 
   (* the value an intervention set gives to node v (the first entry naming v), if any *)
-  Definition do_value (ivs : list (nat * bool)) (v : nat) : option bool :=
+  Definition do_value (ivs : list (nat * bool)) (v : nat) : option D :=
     option_map lit (find (fun i => Nat.eqb (fst i) v) ivs).
 
   (* x solves the structural equations of the submodel M_ivs at exogenous state u *)
-  Definition solution (ivs : list (nat * bool)) (u : U) (x : nat -> bool) : Prop :=
+  Definition solution (ivs : list (nat * bool)) (u : U) (x : nat -> D) : Prop :=
     forall v, In v (nodes g) -> x v = match do_value ivs v with Some b => b | None => f v x u end.
 
   (* the solution computed along an order of the nodes *)
-  Definition upd (x : nat -> bool) (v : nat) (b : bool) : nat -> bool := fun w => if Nat.eqb w v then b else x w.
-  Definition solve (order : list nat) (ivs : list (nat * bool)) (u : U) : nat -> bool :=
-    fold_left (fun x v => upd x v (match do_value ivs v with Some b => b | None => f v x u end)) order (fun _ => false).
+  Definition upd (x : nat -> D) (v : nat) (b : D) : nat -> D := fun w => if Nat.eqb w v then b else x w.
+  Definition solve (order : list nat) (ivs : list (nat * bool)) (u : U) : nat -> D :=
+    fold_left (fun x v => upd x v (match do_value ivs v with Some b => b | None => f v x u end)) order (fun _ => rho (0, false)).
 End SCM.
